@@ -12,19 +12,45 @@ ID = "C02"
 LEVEL = "exploration"
 RULE = ("(a) bounded-exhaustive: every discipline-respecting sequence of <=5 (quick) / 6 (thorough) operations over "
         "{open r/a, close, put a(dup)/b(new)/256-byte key, get a/b, keys} x 2 handles on a file with one committed record; "
+        "(a') the same, <=3 / 4 operations, with the handle that CREATED the file (mode w / x, still open or closed once) as "
+        "handle 0: reopened by open() without a mode, `with handle:`, open r/a, read through before its first close, items(); "
         "(b) seeded random UKVFile histories of 30-200 ops on 1-3 handles (keys of 0/1/255/256 bytes, binary keys, values "
-        "0..70000 bytes, pickled-and-restored handles, reopenings); (c) random Collection+UkvCollectionBackend session "
-        "histories on 1-3 collection objects with bufsize in {-1,0,64,1e6}. non-trivial = history has a reopen or a second "
+        "0..70000 bytes, pickled-and-restored handles, reopenings with and without a mode, the creating handle kept in the "
+        "handle set, h[k] / h[k]=v, items() / values(), exclusive creation over the existing file, copy_items into a second file); "
+        "(c) random Collection+UkvCollectionBackend session histories on 1-3 collection objects with bufsize in {-1,0,64,1e6}, "
+        "h1 / comment / descriptor block passed through the creating call, the path fresh or holding an older UKV file that is "
+        "replaced (overwrite=True) or kept, non-creating collections given other descriptor arguments, items() / values() / "
+        "iteration / `in` inside sessions, puts through read-only collections, session bodies left by an exception; "
+        "(d) a record the file rejects in the middle of a buffered collection's queue: view inside the session after every step, "
+        "second put of an accepted key and explicit flush in the next session. non-trivial = history has a reopen or a second "
         "handle AND a failing operation or a stale cached table of contents; distinct by canonical history string")
 ASSUMPTIONS = [
     "session discipline of the backends: any number of read handles may be open together, a writable handle is the only "
     "open handle (keeping sessions apart is C04's subject)",
     "a stale handle must serve the keys it has seen; it need not see another handle's writes before its next open",
     "h1 is compared modulo the NUL padding of its 16-byte field",
+    "a handle that created the file is a writer; reopened without a mode it appends (it must not create the file again)",
+    "a key longer than 255 bytes put into a buffered collection is only found out by the flush: until an error has been "
+    "raised the collection may or may not list it; afterwards it must not",
+    "whether records still buffered when a session BODY raises reach the file at that exit is C04's subject: after such a "
+    "session the file must hold every earlier record and nothing that was not put; if buffered records are missing the "
+    "history ends without a verdict",
+    "a put inside reading() of a writable collection, str keys/values without an encoder and pickling an OPEN handle are "
+    "outside the property's wording and are not driven",
 ]
 REQUIRED = {"ukv.op": 2000, "ukv.failing-op": 200, "ukv.rawscan": 200, "ukv.reopen-stale": 50,
             "coll.session": 200, "coll.in-session-read": 200, "exh.sequences": 1000,
-            "rejected.cases": 100, "coll.buffered-duplicate-put": 30, "rejected.duplicate-of-a-queued-record": 20}
+            "rejected.cases": 100, "coll.buffered-duplicate-put": 30, "rejected.duplicate-of-a-queued-record": 20,
+            # added after the gap review
+            "exh.creator-sequences": 2000, "ukv.creator-kept.w": 1000, "ukv.creator-kept.x": 1000,
+            "ukv.creator-read-before-first-close": 800, "ukv.creator-put-before-first-close": 700,
+            "ukv.creator-reopen-without-mode": 600, "ukv.bulk-read": 1000, "ukv.copy-items": 100, "ukv.item-syntax": 2500,
+            "ukv.failing-op.create-x-on-existing-file": 300,
+            "coll.bulk-read.with-queued-records": 150, "coll.h1-passed": 180, "coll.start.old-file-replaced": 90,
+            "coll.start.old-file-kept": 40, "coll.write-on-readonly": 190, "coll.write-on-readonly.in-reading-session": 100,
+            "coll.session-body-raised": 150, "rejected.in-session-view.after-an-error": 300,
+            "rejected.flush-raises-with-records-queued-behind": 12,
+            "rejected.second-put-while-the-first-is-still-queued": 15}
 CHUNK_TIMEOUT = 900
 TECHNIQUE = "runtime monitoring: reference map model stepped beside real UKVFile/Collection handles + independent raw-file scan"
 LEVEL_TEXT = ("Held on the histories produced: the real UKVFile / Collection objects are driven through exhaustive short and "
@@ -35,6 +61,22 @@ LEVEL_NOTE = "Trusted: vmon/models/kvmap.py (model + scanner), the session disci
 K256 = b"K" * 256
 K255 = b"k" * 255
 
+# ---- KNOWN_ON_UNCHANGED_TREE ------------------------------------------------------------------------------------
+# Violation keys (without the "C02:" prefix) that the unchanged library produces; written up with a tested fix in
+# /verif/tools/findings/C02-ext.json.  They are counted ("known.<key>") instead of reported.  REMOVE AFTER THE REPAIR.
+KNOWN_ON_UNCHANGED_TREE = {
+    "rejected:oversize-key:next-session:accepted-key-still-queued-is-unlisted",
+}
+
+
+def known_or_violation(ctx, key, **detail):
+    import os
+
+    if key in KNOWN_ON_UNCHANGED_TREE and not os.environ.get("VERIF_C02_REPORT_KNOWN"):   # set it to test a repaired tree
+        ctx.count("known." + key)
+        return
+    ctx.violation(key, **detail)
+
 
 def plan(tier, seed):
     specs = []
@@ -43,11 +85,21 @@ def plan(tier, seed):
     firsts = list(range(18))
     for f in firsts:
         specs.append({"kind": "exh", "first": f, "L": L})
+    # the same with the handle that created the file (mode "w" / "x"; still open / closed once) as handle 0
+    nc = len(exhc_alphabet())
+    for keep in ("open", "closed"):
+        for cmode in ("w", "x"):
+            if tier == "quick":
+                specs.append({"kind": "exh", "first": list(range(0, nc, 2)), "L": 3, "keep": keep, "cmode": cmode})
+                specs.append({"kind": "exh", "first": list(range(1, nc, 2)), "L": 3, "keep": keep, "cmode": cmode})
+            else:
+                for f in range(nc):
+                    specs.append({"kind": "exh", "first": f, "L": 4, "keep": keep, "cmode": cmode})
     nrand = 48 if tier == "quick" else 320
     for i in range(nrand):
         specs.append({"kind": "rand", "chunk": i, "n": 12 if tier == "quick" else 30})
     for i in range(8 if tier == "quick" else 32):
-        specs.append({"kind": "rejected", "chunk": i, "n": 30 if tier == "quick" else 100})
+        specs.append({"kind": "rejected", "chunk": i, "n": 40 if tier == "quick" else 100})
     ncoll = 48 if tier == "quick" else 320
     for i in range(ncoll):
         specs.append({"kind": "coll", "chunk": i, "n": 12 if tier == "quick" else 30})
@@ -66,6 +118,15 @@ def exh_alphabet():
     return ops
 
 
+def exhc_alphabet():
+    """the handle that created the file (handle 0, modes "w" / "x", still open or closed once) beside a second handle"""
+    return [("open", 0, None), ("open", 0, "with"), ("open", 0, "r"), ("open", 0, "a"), ("close", 0),
+            ("put", 0, b"a", b"x"), ("put", 0, b"b", b""), ("put", 0, K256, b"x"),
+            ("get", 0, b"a"), ("get", 0, b"b"), ("keys", 0), ("items", 0),
+            ("open", 1, "r"), ("open", 1, "a"), ("close", 1), ("put", 1, b"b", b"y"),
+            ("get", 1, b"a"), ("get", 1, b"b"), ("keys", 1)]
+
+
 def run_chunk(spec, ctx):
     if spec["kind"] == "rejected":
         return run_coll_rejected(spec, ctx)
@@ -82,7 +143,9 @@ def run_chunk(spec, ctx):
 class UkvDriver:
     """steps the real handles and the model together"""
 
-    def __init__(self, ctx, path, case, h1=None, h2=b"", b0=b"", initial=()):
+    def __init__(self, ctx, path, case, h1=None, h2=b"", b0=b"", initial=(), cmode="w", keep=None):
+        """cmode: mode of the creating handle ("w" / "x"); keep: None - the creating handle is closed and dropped,
+        "closed" / "open" - it stays in the handle set as handle 0 (closed after the initial puts / still open)"""
         from molli.storage.ukvfile import UKVFile
         from vmon.models.kvmap import KVModel
 
@@ -90,28 +153,58 @@ class UkvDriver:
         self.ctx, self.path, self.case = ctx, path, case
         self.hist = []
         self.flags = set()
-        creator = UKVFile(path, mode="w", h1=h1, h2=h2, b0=b0)
+        if cmode == "x" and path.exists():
+            path.unlink()
+        creator = UKVFile(path, mode=cmode, h1=h1, h2=h2, b0=b0)
         self.h1 = (h1 or UKVFile.FILE_H1_DEFAULT)
         self.model = KVModel(self.h1, h2 or b"", b0 or b"")
-        for k, v in initial:
-            creator.put(k, v)
-            self.model.committed[k] = v
-        creator.close()
         self.objs = {}
         self.ok = True
+        self.creator_first_session = False
+        self.creator = None
+        if keep:
+            # the creating handle is a writer like any other: it may read what it has put and may be reopened
+            self.objs[0] = creator
+            self.creator = 0
+            self.model.do_open(0, "a")
+            self.creator_first_session = True
+            self.flags.add("creator")
+            ctx.count(f"ukv.creator-kept.{cmode}")
+        for k, v in initial:
+            creator.put(k, v)
+            if keep:
+                self.model.do_put(0, k, v)
+            else:
+                self.model.committed[k] = v
+        if keep != "open":
+            creator.close()
+            if keep:
+                self.model.do_close(0)
+                self.creator_first_session = False
 
     def v(self, key, **detail):
         self.ok = False
         self.ctx.violation(key, case=self.case, history=[_fmt(o) for o in self.hist[-12:]], **detail)
 
+    def eff_mode(self, h, mode):
+        """open() without a mode / `with handle:` reopen in the handle's own mode; a handle that created the file is a
+        writer (reopening it must not create the file again)"""
+        return mode if mode in ("r", "a") else self.model.handle(h).mode
+
     def allowed(self, op):
         kind, h = op[0], op[1]
         if kind == "open":
-            return self.model.may_open(h, op[2])
+            if op[2] in ("r", "a"):
+                return self.model.may_open(h, op[2])
+            return h in self.objs and self.model.may_open(h, self.eff_mode(h, op[2]))
         if kind == "pickle":
             return h in self.objs and not self.model.handle(h).open
         if kind == "close":
             return h in self.objs and self.model.handle(h).open
+        if kind in ("items", "values"):
+            return h in self.objs and self.model.handle(h).open
+        if kind == "create-x":
+            return True
         return h in self.objs  # put/get/keys need a constructed handle
 
     def step(self, op):
@@ -123,17 +216,28 @@ class UkvDriver:
         kind, h = op[0], op[1]
         ctx.count("ukv.op")
         if kind == "open":
-            mode = op[2]
+            how = op[2]                      # "r" / "a" / None: open() / "with": __enter__()
+            mode = self.eff_mode(h, how)
             stale = h in self.objs and set(self.objs[h].keys()) != set(m.committed)
             try:
                 if h not in self.objs:
                     self.objs[h] = self.UKVFile(self.path, mode=mode)
+                elif how == "with":
+                    self.objs[h].__enter__()
+                elif how is None:
+                    self.objs[h].open()
                 else:
                     self.objs[h].open(mode)
             except Exception as e:  # noqa
-                self.v(f"ukv:open-{mode}:raises:{type(e).__name__}", err=repr(e)[:200])
+                self.v(f"ukv:open-{how or 'same-mode'}:raises:{type(e).__name__}", err=repr(e)[:200])
                 return
             m.do_open(h, mode)
+            if how not in ("r", "a"):
+                ctx.count("ukv.reopen-without-mode")
+            if h == self.creator:
+                ctx.count("ukv.creator-reopen")
+                if how not in ("r", "a"):
+                    ctx.count("ukv.creator-reopen-without-mode")
             if stale:
                 ctx.count("ukv.reopen-stale")
                 self.flags.add("stale")
@@ -145,10 +249,15 @@ class UkvDriver:
         elif kind == "close":
             was_writer = m.handle(h).open and m.handle(h).mode == "a"
             try:
-                self.objs[h].close()
+                if len(op) > 2 and op[2] == "exit":
+                    self.objs[h].__exit__(None, None, None)
+                else:
+                    self.objs[h].close()
             except Exception as e:  # noqa
                 self.v(f"ukv:close:raises:{type(e).__name__}", err=repr(e)[:200])
             m.do_close(h)
+            if h == self.creator:
+                self.creator_first_session = False
             if was_writer:
                 self.rawscan()
         elif kind == "pickle":
@@ -158,7 +267,11 @@ class UkvDriver:
             k, val = op[2], op[3]
             exp = m.expect_put(h, k, val)
             try:
-                self.objs[h].put(k, val)
+                if len(op) > 4 and op[4] == "item":
+                    ctx.count("ukv.item-syntax")
+                    self.objs[h][k] = val
+                else:
+                    self.objs[h].put(k, val)
                 raised = None
             except Exception as e:  # noqa
                 raised = e
@@ -167,6 +280,8 @@ class UkvDriver:
                     self.v(f"ukv:put:valid-put-raises:{type(raised).__name__}", klen=len(k), vlen=len(val))
                 else:
                     m.do_put(h, k, val)
+                    if h == self.creator and self.creator_first_session:
+                        ctx.count("ukv.creator-put-before-first-close")
             else:
                 ctx.count("ukv.failing-op")
                 ctx.count(f"ukv.failing-op.{exp[1]}")
@@ -179,11 +294,17 @@ class UkvDriver:
             k = op[2]
             exp = m.expect_get(h, k)
             try:
-                got = self.objs[h].get(k)
+                if len(op) > 3 and op[3] == "item":
+                    ctx.count("ukv.item-syntax")
+                    got = self.objs[h][k]
+                else:
+                    got = self.objs[h].get(k)
                 raised = None
             except Exception as e:  # noqa
                 raised = e
             if exp[0] == "value":
+                if h == self.creator and self.creator_first_session:
+                    ctx.count("ukv.creator-read-before-first-close")
                 if raised is not None:
                     self.v(f"ukv:get:known-key-raises:{type(raised).__name__}", klen=len(k))
                 elif got != exp[1]:
@@ -196,6 +317,36 @@ class UkvDriver:
                     self.v(f"ukv:get:{exp[1]}:returns-value", klen=len(k), got_len=len(got))
         elif kind == "keys":
             pass
+        elif kind in ("items", "values"):
+            # bulk readers of an open handle: every key of the handle's view with the bytes that were put
+            hd = m.handle(h)
+            want = {k: m.committed[k] for k in hd.view}
+            ctx.count("ukv.bulk-read")
+            if h == self.creator and self.creator_first_session and want:
+                ctx.count("ukv.creator-read-before-first-close")
+            try:
+                got = list(getattr(self.objs[h], kind)())
+            except Exception as e:  # noqa
+                self.v(f"ukv:{kind}:raises:{type(e).__name__}", n_keys=len(want), err=repr(e)[:200])
+            else:
+                if kind == "items":
+                    bad = len(got) != len(want) or any(k not in want or want[k] != val for k, val in got)
+                else:
+                    bad = sorted(got) != sorted(want.values())
+                if bad:
+                    self.v(f"ukv:{kind}:differ-from-the-records-put", n_got=len(got), n_want=len(want))
+        elif kind == "create-x":
+            # exclusive creation over the existing file is an operation that fails: nothing may change
+            ctx.count("ukv.failing-op")
+            ctx.count("ukv.failing-op.create-x-on-existing-file")
+            self.flags.add("fail")
+            try:
+                o = self.UKVFile(self.path, mode="x")
+            except Exception:  # noqa
+                self.after_failure("create-x-on-existing-file")
+            else:
+                o.close()
+                self.v("ukv:create-x-on-existing-file:accepted")
         self.check_views(kind)
 
     def check_views(self, after):
@@ -244,7 +395,7 @@ class UkvDriver:
         if h1.rstrip(b"\0") != self.model.h1.rstrip(b"\0") or h2 != self.model.h2 or b0 != self.model.b0:
             self.v("ukv:rawscan:headers-differ")
 
-    def finish(self):
+    def finish(self, copy_rng=None):
         for h, o in list(self.objs.items()):
             if self.model.handle(h).open:
                 self.step(("close", h))
@@ -257,8 +408,50 @@ class UkvDriver:
             for k, val in list(self.model.committed.items())[:40]:
                 if o.get(k) != val:
                     self.v("ukv:fresh-reader:wrong-value", klen=len(k))
+            if copy_rng is not None and self.ok:
+                self.copy_out(o, copy_rng)
         finally:
             o.close()
+
+    def copy_out(self, src, rng):
+        """copy_items = get through one handle + put through another: the copy holds the chosen records, in the order
+        asked for, and a second copy of a key is refused without changing the destination"""
+        from vmon.models.kvmap import scan, ScanError
+
+        keys = list(self.model.committed)
+        rng.shuffle(keys)
+        keys = keys[:rng.randrange(0, len(keys) + 1)]
+        dpath = self.path.with_suffix(".copy")
+        if dpath.exists():
+            dpath.unlink()
+        self.ctx.count("ukv.copy-items")
+        dest = self.UKVFile(dpath, mode="x", h2=b"copy")
+        try:
+            try:
+                src.copy_items(dest, keys)
+            except Exception as e:  # noqa
+                self.v(f"ukv:copy-items:raises:{type(e).__name__}", n=len(keys), err=repr(e)[:200])
+                return
+            if keys:
+                try:
+                    src.copy_items(dest, keys[-1:])
+                except Exception:  # noqa
+                    self.ctx.count("ukv.failing-op")
+                    self.ctx.count("ukv.failing-op.copy-duplicate")
+                else:
+                    self.v("ukv:copy-items:duplicate:accepted")
+            if set(dest.keys()) != set(keys):
+                self.v("ukv:copy-items:destination-lists-other-keys")
+        finally:
+            dest.close()
+        try:
+            _, h2, _, recs, _ = scan(dpath.read_bytes())
+        except ScanError as e:
+            self.v("ukv:copy-items:destination-not-a-clean-record-sequence", err=str(e))
+        else:
+            if [(k, val) for k, val, _ in recs] != [(k, self.model.committed[k]) for k in keys] or h2 != b"copy":
+                self.v("ukv:copy-items:destination-records-differ", n_got=len(recs), n_want=len(keys))
+        dpath.unlink()
 
 
 def _fmt(op):
@@ -275,19 +468,29 @@ def canon(hist):
     return ";".join(",".join(str(y) if not isinstance(y, bytes) else f"{len(y)}:{y[:4].hex()}" for y in op) for op in hist)
 
 
-def feasible(ops):
+def feasible(ops, keep=None):
     """pure-model dry run: does the sequence respect the session discipline and only touch constructed handles?"""
     from vmon.models.kvmap import KVModel
 
     m = KVModel()
     m.committed[b"a"] = b"0"
     made = set()
+    if keep:
+        m.do_open(0, "a")
+        made.add(0)
+        if keep == "closed":
+            m.do_close(0)
     for op in ops:
         kind, h = op[0], op[1]
         if kind == "open":
-            if not m.may_open(h, op[2]):
+            mode = op[2]
+            if mode not in ("r", "a"):
+                if h not in made:
+                    return False
+                mode = m.handle(h).mode
+            if not m.may_open(h, mode):
                 return False
-            m.do_open(h, op[2])
+            m.do_open(h, mode)
             made.add(h)
         elif h not in made:
             return False
@@ -295,15 +498,19 @@ def feasible(ops):
             if not m.handle(h).open:
                 return False
             m.do_close(h)
+        elif kind in ("items", "values"):
+            if not m.handle(h).open:
+                return False
         elif kind == "put" and m.expect_put(h, op[2], op[3])[0] == "ok":
             m.do_put(h, op[2], op[3])
     return True
 
 
 def run_exhaustive(spec, ctx):
-    ops = exh_alphabet()
+    keep, cmode = spec.get("keep"), spec.get("cmode", "w")
+    ops = exhc_alphabet() if keep else exh_alphabet()
     L = spec["L"]
-    first = ops[spec["first"]]
+    firsts = spec["first"] if isinstance(spec["first"], list) else [spec["first"]]
     path = ctx.tmp / "e.ukv"
     n = 0
 
@@ -311,31 +518,34 @@ def run_exhaustive(spec, ctx):
         nonlocal n
         # execute prefix from scratch, pruning by the model as we go
         if len(prefix) >= 1:
-            case = ("exh", spec["first"], canon(prefix))
-            if not feasible(prefix):
+            case = ("exh", spec["first"], canon(prefix)) if not keep else ("exhc", keep, cmode, canon(prefix))
+            if not feasible(prefix, keep):
                 return False
             if ctx.want(case):
-                d = UkvDriver(ctx, path, case, initial=[(b"a", b"0")])
+                d = UkvDriver(ctx, path, case, initial=[(b"a", b"0")], cmode=cmode, keep=keep,
+                              h2=b"c" if keep else b"", b0=b"d" if keep else b"")
                 for op in prefix:
                     assert d.allowed(op)
                     d.step(op)
                 d.finish()
                 n += 1
-                ctx.count("exh.sequences")
+                ctx.count("exh.creator-sequences" if keep else "exh.sequences")
                 nt = ("fail" in d.flags) and ("multi" in d.flags or "stale" in d.flags)
-                ctx.case(case, dkey=canon(prefix), nontrivial=nt,
-                         sample={"history": [_fmt(o) for o in prefix]} if n % 997 == 1 else None)
+                ctx.case(case, dkey=(keep, cmode, canon(prefix)), nontrivial=nt,
+                         sample={"history": [_fmt(o) for o in prefix], "creator": [cmode, keep] if keep else None}
+                         if n % 997 == 1 else None)
         if len(prefix) == L:
             return True
         for op in ops:
             # symmetry: handle 1 is only touched after handle 0 was opened once
-            if op[1] == 1 and not any(p[0] == "open" and p[1] == 0 for p in prefix):
+            if not keep and op[1] == 1 and not any(p[0] == "open" and p[1] == 0 for p in prefix):
                 continue
             rec(prefix + [op])
         return True
 
     # an infeasible first op contributes nothing
-    rec([first])
+    for f in firsts:
+        rec([ops[f]])
 
 
 def run_random(spec, ctx):
@@ -352,20 +562,29 @@ def run_random(spec, ctx):
         keypool = [b"", b"a", b"\x00", b"\xff\x00\xfe", b"key-1", b"key-2", K255, K256, K255[:-1] + b"z",
                    "ü".encode(), b"a" * 17, b"b" * 64] + [f"r{i}".encode() for i in range(rng.randrange(3, 30))]
         initial = [(k, bytes([rng.randrange(256)]) * rng.choice([0, 1, 50])) for k in rng.sample(keypool[:7], rng.randrange(0, 4))]
-        d = UkvDriver(ctx, path, case, h1=h1, h2=h2, b0=b0, initial=initial)
+        cmode = rng.choice("wx")
+        keep = rng.choice([None, "closed", "open", "open"])
+        d = UkvDriver(ctx, path, case, h1=h1, h2=h2, b0=b0, initial=initial, cmode=cmode, keep=keep)
         nh = rng.choice([1, 2, 2, 3])
         L = rng.randrange(30, 200)
         big = rng.random() < 0.15
-        for _ in range(L):
-            h = rng.randrange(nh)
+        # a handle that created the file mostly works on for a while before anything else happens
+        solo = rng.randrange(0, 12) if keep == "open" else 0
+        for step_no in range(L):
+            h = rng.randrange(nh) if step_no >= solo else 0
             r = rng.random()
+            if step_no < solo and r < 0.30:
+                r = 0.33 + r        # puts and gets instead of open / close / pickle
             hd = d.model.handle(h)
+            item = "item" if rng.random() < 0.2 else None
             if r < 0.16:
-                op = ("open", h, rng.choice("ra"))
+                op = ("open", h, rng.choice(["r", "a", "r", "a", None, "with"]))
             elif r < 0.30:
-                op = ("close", h)
+                op = ("close", h) if rng.random() < 0.7 else ("close", h, "exit")
             elif r < 0.33:
                 op = ("pickle", h)
+            elif r < 0.34:
+                op = ("create-x", h)
             elif r < 0.62:
                 k = rng.choice(keypool)
                 if rng.random() < 0.5 and hd.open and hd.mode == "a":
@@ -375,11 +594,13 @@ def run_random(spec, ctx):
                         k = rng.choice(fresh)
                 sz = rng.choice(sizes + ([70000] if big else []))
                 val = bytes([rng.randrange(256)]) * sz if sz < 3 else rng.randbytes(sz)
-                op = ("put", h, k, val)
-            elif r < 0.9:
+                op = ("put", h, k, val) + ((item,) if item else ())
+            elif r < 0.88:
                 pool = list(d.model.committed) or keypool
                 k = rng.choice(pool) if rng.random() < 0.8 else rng.choice(keypool)
-                op = ("get", h, k)
+                op = ("get", h, k) + ((item,) if item else ())
+            elif r < 0.94:
+                op = (rng.choice(["items", "values"]), h)
             else:
                 op = ("keys", h)
             if not d.allowed(op):
@@ -387,10 +608,11 @@ def run_random(spec, ctx):
             d.step(op)
             if not d.ok:
                 break
-        d.finish()
-        nt = ("fail" in d.flags) and ("multi" in d.flags or "stale" in d.flags)
-        ctx.case(case, dkey=canon(d.hist), nontrivial=nt,
-                 sample={"n_ops": len(d.hist), "handles": nh, "tail": [_fmt(o) for o in d.hist[-5:]]})
+        d.finish(copy_rng=rng if rng.random() < 0.4 else None)
+        nt = ("fail" in d.flags) and ("multi" in d.flags or "stale" in d.flags or "creator" in d.flags)
+        ctx.case(case, dkey=(cmode, keep, canon(d.hist)), nontrivial=nt,
+                 sample={"n_ops": len(d.hist), "handles": nh, "creator": [cmode, keep],
+                         "tail": [_fmt(o) for o in d.hist[-5:]]})
         try:
             path.unlink()
         except OSError:
@@ -402,7 +624,11 @@ def run_random(spec, ctx):
 
 def run_coll(spec, ctx):
     from molli.storage import Collection, UkvCollectionBackend
+    from molli.storage.ukvfile import UKVFile
     from vmon.models.kvmap import scan, ScanError
+
+    class Boom(Exception):
+        """raised by the session body (user code)"""
 
     for j in range(spec["n"]):
         case = ("coll", spec["chunk"], j)
@@ -412,17 +638,43 @@ def run_coll(spec, ctx):
         path = ctx.tmp / f"c{j}.ukv"
         ncol = rng.choice([1, 2, 3])
         cols, bufs, ro = [], [], []
-        comment = rng.choice([None, "cmt", "é" * 10])
-        b0 = rng.choice([None, b"\x01\x02descriptor"])
-        for c in range(ncol):
-            bs = rng.choice([-1, 0, 64, 10**6])
-            readonly = c > 0 and rng.random() < 0.3
-            cols.append(Collection(path, UkvCollectionBackend, overwrite=(c == 0), readonly=readonly, bufsize=bs,
-                                   comment=comment, b0=b0))
-            bufs.append(bs)
-            ro.append(readonly)
         committed: dict[str, bytes] = {}
         hist = []
+        # what the path holds before the first collection is made: nothing, or an older UKV file that the creating
+        # call either replaces (overwrite=True, descriptor arguments passed explicitly) or keeps (overwrite=False)
+        start = rng.choice(["fresh", "fresh", "fresh", "old-file-replaced", "old-file-replaced", "old-file-kept"])
+        explicit = start == "old-file-replaced"
+        comment = rng.choice(["cmt", "é" * 10] + ([] if explicit else [None]))
+        b0 = rng.choice([b"\x01\x02descriptor", bytes(range(200))] + ([] if explicit else [None]))
+        h1 = rng.choice([b"MYFMT01", b"F" * 16] + ([] if explicit else [None, None]))
+        want_head = [h1 or UKVFile.FILE_H1_DEFAULT, (comment or "").encode(), b0 or b""]
+        if start != "fresh":
+            ctx.count(f"coll.start.{start}")
+            old = UKVFile(path, mode="w", h1=b"OLDFMT", h2=b"older comment", b0=b"older-descriptor-block")
+            for k in ["a", "i1", "i2", "older"][:rng.randrange(0, 5)]:
+                old.put(k.encode(), b"older-" + k.encode())
+                if start == "old-file-kept":
+                    committed[k] = b"older-" + k.encode()
+            old.close()
+            if start == "old-file-kept":
+                want_head = [b"OLDFMT", b"older comment", b"older-descriptor-block"]
+        if h1 is not None:
+            ctx.count("coll.h1-passed")
+        hist.append(("start", start))
+        for c in range(ncol):
+            bs = rng.choice([-1, 0, 64, 10**6])
+            readonly = c > 0 and rng.random() < 0.4
+            if c == 0:
+                kw = dict(overwrite=(start == "old-file-replaced" or (start == "fresh" and rng.random() < 0.5)),
+                          comment=comment, b0=b0, h1=h1)
+            else:
+                # a collection that does not create the file may be given any descriptor arguments: the file keeps its own
+                kw = dict(overwrite=False, comment=rng.choice([comment, None, "another comment"]),
+                          b0=rng.choice([b0, None, b"another"]), h1=rng.choice([h1, None, b"ANOTHER"]))
+            cols.append(Collection(path, UkvCollectionBackend, readonly=readonly, bufsize=bs,
+                                   **{k: val for k, val in kw.items() if val is not None or rng.random() < 0.5}))
+            bufs.append(bs)
+            ro.append(readonly)
         flags = set()
         bad = [False]
 
@@ -448,11 +700,25 @@ def run_coll(spec, ctx):
                 except Exception:  # noqa
                     flags.add("fail")
                     ctx.count("coll.failing-op")
+                if rng.random() < 0.5:
+                    # a put on the read-only collection outside any session is refused as well
+                    ctx.count("coll.write-on-readonly")
+                    hist.append(("set-on-readonly-outside-session", c, bufs[c]))
+                    try:
+                        col[rng.choice(["ro-new", "a", "i3"])] = b"written through a read-only collection"
+                    except Exception:  # noqa
+                        ctx.count("coll.failing-op")
+                    else:
+                        v("coll:set:readonly-collection:accepted:outside-session")
+                        break
                 continue
             buffered = bufs[c] > 0
             pending: dict[str, bytes] = {}
             hist.append(("begin", "w" if writing else "r", c, bufs[c]))
-            exit_may_raise = False
+            nops = rng.randrange(0, 10)
+            # some session bodies end with an exception: raised by the user's code or by a refused put that nobody catches
+            raise_at = rng.randrange(0, nops + 1) if writing and rng.random() < 0.15 else None
+            body_raised = [None]
             try:
                 with (col.writing() if writing else col.reading()):
                     listed = set(col.keys())
@@ -461,9 +727,51 @@ def run_coll(spec, ctx):
                           missing=sorted(set(committed) - listed)[:3])
                         if listed - set(committed):
                             break
-                    for _ in range(rng.randrange(0, 10)):
+                    for opno in range(nops + 1):
+                        if opno == raise_at:
+                            known = {**committed, **pending}
+                            if known and rng.random() < 0.5:
+                                k = rng.choice(sorted(known))
+                                hist.append(("set-duplicate-uncaught", k[:8]))
+                                body_raised[0] = "refused-put"
+                                flags.add("fail")
+                                ctx.count("coll.failing-op")
+                                col[k] = b"second put, nobody catches the error"
+                                body_raised[0] = None
+                                v("coll:set:duplicate:accepted")
+                                break
+                            hist.append(("raise",))
+                            body_raised[0] = "user-code"
+                            raise Boom()
+                        if opno == nops:
+                            break
                         r = rng.random()
-                        if writing and r < 0.5:
+                        if ro[c] and r < 0.25:
+                            # a put through a read-only collection is refused; listing and file stay as they are
+                            ctx.count("coll.write-on-readonly")
+                            ctx.count("coll.write-on-readonly.in-reading-session")
+                            flags.add("fail")
+                            k = rng.choice(["ro-new", "ro-new2"] + sorted(committed)[:2])
+                            hist.append(("set-on-readonly", k[:8], bufs[c]))
+                            try:
+                                col[k] = b"written through a read-only collection"
+                            except Exception:  # noqa
+                                ctx.count("coll.failing-op")
+                            else:
+                                v("coll:set:readonly-collection:accepted")
+                                break
+                            now = set(col.keys())
+                            if now != set(committed):
+                                v("coll:set:readonly-collection:key-listing-changed-by-failed-put",
+                                  extra=[len(x) for x in now - set(committed)], missing=[len(x) for x in set(committed) - now])
+                                break
+                            for k2 in sorted(committed)[:3]:
+                                try:
+                                    if col[k2] != committed[k2]:
+                                        v("coll:set:readonly-collection:value-changed-by-failed-put")
+                                except Exception as e:  # noqa
+                                    v(f"coll:set:readonly-collection:stored-record-unreadable-after-failed-put:{type(e).__name__}")
+                        elif writing and r < 0.5:
                             k = rng.choice(keypool)
                             if rng.random() < 0.6:
                                 fresh = [x for x in keypool if x not in committed and x not in pending and len(x.encode()) <= 255]
@@ -531,6 +839,34 @@ def run_coll(spec, ctx):
                                     continue
                                 if got != known[k]:
                                     v("coll:get:wrong-value", k=k[:8])
+                            if rng.random() < 0.5:
+                                # the bulk readers and the membership test say the same as keys() and get()
+                                ctx.count("coll.bulk-read")
+                                state = "with-queued-records" if pending else "nothing-queued"
+                                ctx.count(f"coll.bulk-read.{state}")
+                                hist.append(("items/values/iter/in",))
+                                try:
+                                    items = list(col.items())
+                                    values = list(col.values())
+                                    names = list(col)
+                                    member = [k in col for k in ks[:5]] + ["nope0" not in col]
+                                    n_items = col.n_items
+                                except Exception as e:  # noqa
+                                    v(f"coll:bulk-read:raises:{state}:{type(e).__name__}", err=repr(e)[:200])
+                                    break
+                                if len(items) != len(known) or any(k not in known or known[k] != val for k, val in items):
+                                    v(f"coll:items:differ-from-the-records-put:{state}", n_got=len(items), n_want=len(known))
+                                if sorted(values) != sorted(known.values()):
+                                    v(f"coll:values:differ-from-the-records-put:{state}", n_got=len(values), n_want=len(known))
+                                if sorted(names) != sorted(known) or n_items != len(known):
+                                    v(f"coll:iter:differs-from-keys:{state}")
+                                if not all(member):
+                                    v(f"coll:contains:disagrees-with-keys:{state}")
+                                # the backend object answers the same questions (skipped if it is not reachable this way)
+                                be = getattr(col, "_backend", None)
+                                if be is not None and hasattr(be, "__contains__") and hasattr(be, "__len__"):
+                                    if not all(k in be for k in ks[:5]) or "nope0" in be or len(be) != len(known):
+                                        v(f"coll:backend-contains-or-len:disagrees-with-keys:{state}")
                         elif r < 0.85:
                             k = "nope" + str(rng.randrange(5))
                             hist.append(("get-unknown", k))
@@ -550,25 +886,45 @@ def run_coll(spec, ctx):
                                 v("coll:len-differs")
                 hist.append(("end",))
             except Exception as e:  # noqa
-                v(f"coll:session-raises:{type(e).__name__}", err=repr(e)[:300])
-                break
-            committed.update(pending)
+                if body_raised[0] is None or (body_raised[0] == "user-code" and not isinstance(e, Boom)):
+                    v(f"coll:session-raises:{type(e).__name__}", err=repr(e)[:300])
+                    break
+                ctx.count("coll.session-body-raised")
+                ctx.count(f"coll.session-body-raised.{body_raised[0]}")
+                hist.append(("left-by-exception", body_raised[0]))
             # raw scan after each session
             try:
-                _h1, h2, b0_, recs, _end = scan(path.read_bytes())
+                h1_, h2, b0_, recs, _end = scan(path.read_bytes())
             except ScanError as e:
                 v("coll:rawscan:file-not-a-clean-record-sequence", err=str(e))
                 break
             got = {k.decode(): val for k, val, _ in recs}
-            if got != committed or len(recs) != len(committed):
-                v("coll:rawscan:records-differ-from-model", n_got=len(recs), n_want=len(committed))
+            if body_raised[0] is not None and pending:
+                # whether the records still buffered when the body raised are stored at that exit is C04's subject: here
+                # the file only has to hold every earlier record and nothing that was not put
+                if len(recs) != len(got) or any(got.get(k) != val for k, val in committed.items()) \
+                        or any(k not in committed and pending.get(k) != val for k, val in got.items()):
+                    v("coll:rawscan:records-differ-from-model:after-session-left-by-exception",
+                      n_got=len(recs), n_committed=len(committed), n_buffered=len(pending))
+                    break
+                if any(k not in got for k in pending):
+                    ctx.count("coll.session-body-raised.buffered-records-not-stored-at-exit")
+                    break       # their fate is not judged here; the history ends
+                committed.update(pending)
+            else:
+                committed.update(pending)
+                if got != committed or len(recs) != len(committed):
+                    v("coll:rawscan:records-differ-from-model", n_got=len(recs), n_want=len(committed))
+                    break
+            if [h1_.rstrip(b"\0"), h2, b0_] != [want_head[0].rstrip(b"\0")] + want_head[1:]:
+                which = [n for n, a, b in zip(("h1", "comment", "descriptor-block"),
+                                              [h1_.rstrip(b"\0"), h2, b0_], [want_head[0].rstrip(b"\0")] + want_head[1:]) if a != b]
+                v(f"coll:rawscan:headers-differ:{'+'.join(which)}:{start}", h1=h1_, h2=h2, b0=b0_)
                 break
-            if h2 != (comment or "").encode() or b0_ != (b0 or b""):
-                v("coll:rawscan:headers-differ", h2=h2, b0=b0_)
             if bad[0]:
                 break
         ctx.case(case, dkey=repr(hist), nontrivial=("fail" in flags and "multi" in flags),
-                 sample={"collections": ncol, "bufsizes": bufs, "sessions": nsess, "records": len(committed)})
+                 sample={"collections": ncol, "bufsizes": bufs, "sessions": nsess, "records": len(committed), "start": start})
         try:
             path.unlink()
         except OSError:
@@ -597,7 +953,7 @@ def run_coll_rejected(spec, ctx):
             for i in range(3):
                 col[f"k{i}"] = f"old-{i}".encode() * 4
                 want[f"k{i}"] = f"old-{i}".encode() * 4
-        bad_kind = rng.choice(["duplicate", "oversize-key", "duplicate-of-queued"])
+        bad_kind = rng.choice(["duplicate", "oversize-key", "oversize-key", "duplicate-of-queued"])
         n_before, n_after = rng.randrange(0, 4), rng.randrange(1, 5)
         if bad_kind == "duplicate-of-queued":
             # the key was put earlier in this very session and may still sit in the write buffer: the first put stands
@@ -611,6 +967,41 @@ def run_coll_rejected(spec, ctx):
         errors = []
         hist = [("bufsize", bufsize), ("bad", bad_kind, "at", n_before)]
         session_error = None
+        # an oversize key is only found out by the flush: until an error has been raised the collection may list it
+        state = {"doomed": set(), "bad": 0}
+
+        def inside(stage):
+            """inside the session the user who caught the error sees what was there before: every accepted key is
+            listed and readable with the bytes of its one accepted put, the refused record is neither"""
+            ctx.count("rejected.in-session-view")
+            if stage != "after-quiet-put":
+                ctx.count("rejected.in-session-view.after-an-error")
+            listed = set(col.keys())
+            exp = set(want)
+            if exp - listed:
+                state["bad"] += 1
+                ctx.violation(f"rejected:{bad_kind}:in-session:accepted-key-unlisted:{stage}", case=case, hist=hist,
+                              missing=sorted(exp - listed)[:4], errors=errors)
+            if listed - exp - state["doomed"]:
+                state["bad"] += 1
+                ctx.violation(f"rejected:{bad_kind}:in-session:refused-key-listed:{stage}", case=case, hist=hist,
+                              extra=[len(x) for x in listed - exp], errors=errors)
+            if len(col) != len(listed):
+                state["bad"] += 1
+                ctx.violation(f"rejected:{bad_kind}:in-session:len-differs-from-listing:{stage}", case=case, hist=hist)
+            for k in sorted(exp & listed):
+                try:
+                    got = col[k]
+                except Exception as e:  # noqa
+                    state["bad"] += 1
+                    ctx.violation(f"rejected:{bad_kind}:in-session:accepted-key-unreadable:{stage}:{type(e).__name__}",
+                                  case=case, hist=hist, key=k, errors=errors)
+                    continue
+                if got != want[k]:
+                    state["bad"] += 1
+                    ctx.violation(f"rejected:{bad_kind}:in-session:get-returns-other-bytes-than-the-accepted-put:{stage}",
+                                  case=case, hist=hist, key=k, refused_value=(got == b"rejected-value"), errors=errors)
+
         try:
             with col.writing():
                 for kind, k in plan:
@@ -621,23 +1012,88 @@ def run_coll_rejected(spec, ctx):
                         col[k] = val if kind == "ok" else b"rejected-value"
                     except Exception as e:  # noqa   (the user catches the error and carries on)
                         errors.append(type(e).__name__)
-                if explicit_flush:
+                        state["doomed"].clear()
+                        inside("after-raising-put")
+                    else:
+                        if kind == "bad" and bad_kind == "oversize-key":
+                            state["doomed"].add(k)
+                        inside("after-quiet-put")
+                    if state["bad"]:
+                        break
+                if explicit_flush and not state["bad"]:
                     try:
                         col.flush()
                     except Exception as e:  # noqa
                         errors.append(type(e).__name__)
+                        state["doomed"].clear()
+                        ctx.count("rejected.flush-raises-with-records-queued-behind")
+                        inside("after-raising-flush")
+                    else:
+                        inside("after-quiet-flush")
                 want["tail"] = b"T"
                 try:
                     col["tail"] = b"T"
                 except Exception as e:  # noqa
                     errors.append(type(e).__name__)
+                    state["doomed"].clear()
+                if not state["bad"]:
+                    inside("after-last-put")
         except Exception as e:  # noqa   (the rejected record was still queued at session exit)
             session_error = e
             errors.append(type(e).__name__)
-        # whatever is still queued goes out with the next session of this handle; that one must complete
+        if state["bad"]:
+            continue
+        # whatever is still queued goes out with the next session of this handle; that one must complete.  The user may
+        # put one of the accepted keys again there (e.g. repeating the batch after the error): whether that put is refused
+        # at once or at the flush, get keeps returning the bytes of the first, accepted put - they are what the file gets
+        reput = rng.choice(sorted(k for k in want if k[0] in "bt")) if rng.random() < 0.7 else None
+        hist.append(("second-put-in-next-session", reput))
         try:
             with col.writing():
-                pass
+                # the handle accepted these puts: it lists them whether they are in the file or still in its buffer
+                unlisted = sorted(set(want) - set(col.keys()))
+                if unlisted:
+                    known_or_violation(ctx, f"rejected:{bad_kind}:next-session:accepted-key-still-queued-is-unlisted",
+                                       case=case, hist=hist, missing=unlisted[:4], errors=errors)
+                if session_error is not None:
+                    ctx.count("rejected.next-session-after-failed-exit-flush")
+                if reput is not None:
+                    if session_error is not None:
+                        ctx.count("rejected.second-put-while-the-first-is-still-queued")
+                    try:
+                        col[reput] = b"second put of an accepted key"
+                    except Exception as e:  # noqa
+                        pass
+                    try:
+                        got = col[reput]
+                    except Exception as e:  # noqa
+                        ctx.violation(f"rejected:{bad_kind}:next-session:accepted-key-unreadable-after-second-put:{type(e).__name__}",
+                                      case=case, hist=hist)
+                    else:
+                        if got != want[reput]:
+                            ctx.violation(f"rejected:{bad_kind}:next-session:get-returns-the-bytes-of-the-second-put",
+                                          case=case, hist=hist, queued_leftover=session_error is not None)
+                if rng.random() < 0.7:
+                    hist.append(("flush-in-next-session",))
+                    try:
+                        col.flush()
+                    except Exception as e:  # noqa   (the second put reached the file and was refused there)
+                        errors.append(type(e).__name__)
+                        ctx.count("rejected.next-session-flush-raises")
+                        now = set(col.keys())
+                        if now != set(want):
+                            ctx.violation(f"rejected:{bad_kind}:next-session:"
+                                          f"{'accepted-key-unlisted' if set(want) - now else 'refused-key-listed'}:after-raising-flush",
+                                          case=case, hist=hist, missing=sorted(set(want) - now)[:4],
+                                          extra=[len(x) for x in now - set(want)])
+                        for k in sorted(now & set(want)):
+                            try:
+                                if col[k] != want[k]:
+                                    ctx.violation(f"rejected:{bad_kind}:next-session:wrong-value-after-raising-flush",
+                                                  case=case, hist=hist, key=k)
+                            except Exception as e2:  # noqa
+                                ctx.violation(f"rejected:{bad_kind}:next-session:listed-key-unreadable-after-raising-flush:"
+                                              f"{type(e2).__name__}", case=case, hist=hist, key=k)
         except Exception as e:  # noqa
             try:
                 with col.writing():
@@ -646,7 +1102,7 @@ def run_coll_rejected(spec, ctx):
                 ctx.violation("rejected:handle-cannot-complete-a-session-any-more", case=case, hist=hist, err=repr(e2)[:200])
                 continue
         ctx.count("rejected.cases")
-        ctx.case(case, dkey=(bufsize, bad_kind, n_before, n_after, explicit_flush), nontrivial=True,
+        ctx.case(case, dkey=(bufsize, bad_kind, n_before, n_after, explicit_flush, reput), nontrivial=True,
                  sample={"bufsize": bufsize, "rejected": bad_kind, "queued_before": n_before, "queued_after": n_after,
                          "errors_seen_by_user": errors})
         if not errors:
